@@ -201,6 +201,12 @@ def gen_dump(rng, table, strings):
         ilog += rng.choice(im.BUFFER_NAMES).encode() + b"\0\0\0\0"              # a name without the header start
     elif r < 0.25:
         ilog += im.HDR_START + b"NOPE" + b"\0" * 4                              # header start without a valid name
+    if rng.random() < 0.25:
+        # bytes that read as text: control / Latin-1 characters each followed by hex digits (a dump tool that prints its
+        # character column raw puts them into the text file as they are)
+        blob = b"".join(bytes([rng.choice(sorted(im.RAW_TEXT))]) + rng.choice([b"BEEF", b"12", b"0a 1B", b"CAFE 0123", b"7"])
+                        for _ in range(rng.randrange(2, 9)))
+        ilog += blob + b"\0" * ((-len(blob)) % 8)
     names = rng.sample(im.BUFFER_NAMES, rng.choice([0, 1, 2, 3, 6]))
     bufs = b""
     if names and rng.random() < 0.2:
